@@ -58,8 +58,11 @@ def classifyWith (poisonSymCtx : Bytes) (path : Bytes) : ExportedKey :=
 def classify := classifyWith poisonSym
 def classifyPinned := classifyWith poisonKey
 
-/-- `ExportedKey.fusedID`: purpose and id simply concatenated -/
-def fusedID (k : ExportedKey) : Bytes := ofStr k.ctx.purpose ++ keyContextBytes k.ctx
+/-- `ExportedKey.fusedID`: purpose, a zero byte, id (repair 49) -/
+def fusedID (k : ExportedKey) : Bytes := ofStr k.ctx.purpose ++ 0 :: keyContextBytes k.ctx
+
+/-- the pinned tree: purpose and id simply concatenated -/
+def fusedIDPinned (k : ExportedKey) : Bytes := ofStr k.ctx.purpose ++ keyContextBytes k.ctx
 
 /-- `addPathFrom` -/
 def addPathFrom (k o : ExportedKey) : ExportedKey :=
@@ -69,10 +72,12 @@ def addPathFrom (k o : ExportedKey) : ExportedKey :=
 
 /-- the `keyMap` of `EnumerateExportedKeysByClass` as an association list (first occurrence keeps
 its place and its key context, later ones only contribute paths) -/
-def fuse (m : List ExportedKey) (k : ExportedKey) : List ExportedKey :=
-  if m.any (fun x => fusedID x = fusedID k) then
-    m.map fun x => if fusedID x = fusedID k then addPathFrom x k else x
+def fuseWith (fid : ExportedKey → Bytes) (m : List ExportedKey) (k : ExportedKey) : List ExportedKey :=
+  if m.any (fun x => fid x = fid k) then
+    m.map fun x => if fid x = fid k then addPathFrom x k else x
   else m ++ [k]
+
+def fuse := fuseWith fusedID
 
 /-- order in which `EnumerateExportedKeyPaths` (breadth first, `ReadDir` sorted per directory)
 yields relative paths: by depth, then component-wise -/
@@ -91,12 +96,12 @@ def enumPaths (fs : Files) : List Bytes := (fs.map (·.1)).foldr insertPath []
 `<folder>/<relative path>`; the folder name is assumed not to contribute to any suffix test). The
 slot paths kept here are the relative ones. Go iterates a map: the order of the result is
 unspecified, the model keeps first-occurrence order. -/
-def enumerateWith (cls : Bytes → ExportedKey) (fs : Files) : List ExportedKey :=
+def enumerateWith (cls : Bytes → ExportedKey) (fs : Files) (fid : ExportedKey → Bytes := fusedID) : List ExportedKey :=
   (enumPaths fs).foldl (fun m p =>
     let k := cls (slash :: p)
-    fuse m { k with pubPath := if k.pubPath = [] then [] else p,
-                    privPath := if k.privPath = [] then [] else p,
-                    symPath := if k.symPath = [] then [] else p }) []
+    let k' : ExportedKey := ⟨if k.pubPath = [] then [] else p, if k.privPath = [] then [] else p,
+      if k.symPath = [] then [] else p, k.ctx⟩
+    fuseWith fid m k') []
 
 def enumerate := enumerateWith classify
 
@@ -172,8 +177,19 @@ def sClient : Bytes := ofStr "client"
 /-- `filepath.Join("client", id, suffix)` -/
 def clientRing (id suffix : Bytes) : Bytes := clean (sClient ++ slash :: id ++ slash :: suffix)
 
-/-- key pair branch: `ExportKeyPair`, then `describeNewKeyPair` dereferences both halves -/
+/-- key pair branch: `ExportKeyPair`, then `describeNewKeyPair` takes the halves that are present
+(repair 48) and `AddKey` refuses a pair without public key -/
 def importPair (e : Env) (src : Store) (s : V2) (k : ExportedKey) (ring : Bytes) : V2 × Res :=
+  match exportPublic src k with
+  | none => (s, .err)
+  | some pub =>
+    match exportPrivate e src k with
+    | none => (s, .err)
+    | some priv => addCurrent s ring ⟨fmtPair, pub.getD [], priv.getD [], []⟩
+
+/-- the pinned tree: `describeNewKeyPair` dereferences both halves (`keypair.Public.Value`,
+`keypair.Private.Value`) after the ring was opened – a missing half is a nil pointer dereference -/
+def importPairPinned (e : Env) (src : Store) (s : V2) (k : ExportedKey) (ring : Bytes) : V2 × Res :=
   match exportPublic src k with
   | none => (s, .err)
   | some pub =>
@@ -182,7 +198,7 @@ def importPair (e : Env) (src : Store) (s : V2) (k : ExportedKey) (ring : Bytes)
     | some priv =>
       match pub, priv with
       | some pub, some priv => addCurrent s ring ⟨fmtPair, pub, priv, []⟩
-      | _, _ => (s.open ring).1 |> fun s1 => (s1, .panic)   -- ring opened, then `keypair.Public.Value` / `.Private.Value` on nil
+      | _, _ => ((s.open ring).1, .panic)
 
 /-- symmetric branch -/
 def importSym (e : Env) (src : Store) (s : V2) (k : ExportedKey) (ring : Bytes) : V2 × Res :=
